@@ -23,6 +23,9 @@ NESTED = [["tuple", ["startswith", "a"]], ["tuple", ["lit", 0], ["endswith", "a"
           ["gen", "dict", "str", ["lit", 1]], ["gen", "Mapping", ["startswith", "k"], "int"], ["gen", "list", ["tuple", "int"]],
           ["ounion", "int", ["startswith", "a"]], ["ounion", ["lit", "a"], "float"], ["inter", "str", ["endswith", "z"]],
           ["inter", ["regexp", "^a"], "str"], ["ounion", ["tuple", "int"], ["gen", "list", "int"]], ["inter", ["gen", "dict", "str", "int"], ["haskey", "k"]],
+          # the value-dependent member written BEFORE a plain member that accepts values outside its bound
+          ["ounion", ["startswith", "a"], "int"], ["ounion", ["regexp", "^a"], "int"], ["ounion", ["endswith", "z"], "O"],
+          ["ounion", ["startswith", "a"], ["inter", "int", ["lit", 7]]], ["ounion", ["haskey", "k"], "str"],
           # combinations of combinations in which NO direct member is value-dependent
           ["ounion", "int", ["inter", "str", ["startswith", "a"]]], ["inter", "str", ["ounion", ["startswith", "a"], ["endswith", "z"]]],
           ["ounion", "float", ["inter", ["regexp", "^a"], ["endswith", "z"]]], ["ounion", "int", ["ounion", "float", ["lit", "a"]]],
